@@ -189,14 +189,22 @@ Definition pk_clauses (data : list Qc) (cf : list bool) (d : nat) (obs : list na
                        else true)
              (seq 0 n).
 
-(* all the calls with one height: the clauses AND equality with the repaired scan *)
+(* all the calls with one height.  PROPERTY level: only the clauses of the property, on the observed result
+   (candidates only; ascending and >= d apart; every dropped candidate dominated - hence isolated maxima kept) *)
 Definition pk_h_check (data : list Qc) (h : height) (calls : list (nat * list nat)) : bool :=
   let cf := map (is_candidate_b data h) (seq 0 (length data)) in          (* candidate flags, by the definition *)
+  forallb (fun c => pk_clauses data cf (fst c) (snd c)) calls.
+
+(* CORRESPONDENCE level: the observed result is the one of the repaired scan (fixes the tie-breaking, which the
+   property leaves open) *)
+Definition pk_h_corr (data : list Qc) (h : height) (calls : list (nat * list nat)) : bool :=
   let cs := cands data h in
-  forallb (fun c => pk_clauses data cf (fst c) (snd c) && natlist_eqb (find_peaks_from cs (fst c)) (snd c)) calls.
+  forallb (fun c => natlist_eqb (find_peaks_from cs (fst c)) (snd c)) calls.
 
 Definition pk_query_check (data : list Qc) (q : pk_query) : bool :=
   pk_h_check data (height_of (pq_h q)) [(pq_d q, pq_obs q)].
+Definition pk_query_corr (data : list Qc) (q : pk_query) : bool :=
+  pk_h_corr data (height_of (pq_h q)) [(pq_d q, pq_obs q)].
 
 Fixpoint chunks {A} (k : nat) (fuel : nat) (l : list A) : list (list A) :=
   match fuel with
@@ -204,18 +212,21 @@ Fixpoint chunks {A} (k : nat) (fuel : nat) (l : list A) : list (list A) :=
   | S f => firstn k l :: chunks k f (skipn k l)
   end.
 
-Definition pk_check (c : pk_case) : bool :=
+Definition pk_run (hf : list Qc -> height -> list (nat * list nat) -> bool) (c : pk_case) : bool :=
   let data := map qcz (pk_data c) in
-  let n := length data in
   (length (pk_masks c) =? length (pk_hs c) * pk_nd c)
-  && forallb (pk_query_check data) (pk_queries c)
-  && forallb2 (fun h obs => pk_h_check data (height_of h) (combine (seq 0 (pk_nd c)) obs))
+  && forallb (fun q => hf data (height_of (pq_h q)) [(pq_d q, pq_obs q)]) (pk_queries c)
+  && forallb2 (fun h obs => hf data (height_of h) (combine (seq 0 (pk_nd c)) obs))
               (pk_hs c) (chunks (pk_nd c) (length (pk_hs c)) (pk_grid_obs c)).
 
-Definition pk_expected (c : pk_case) : list (nat * zheight * list nat * list nat) :=     (* d, h, expected, observed *)
+Definition pk_check (c : pk_case) : bool := pk_run pk_h_check c.     (* property clauses only *)
+Definition pk_corr (c : pk_case) : bool := pk_run pk_h_corr c.       (* equality with the model scan *)
+
+(* for the replay files: d, h, result of the model scan, observed, property clauses hold on the observed result? *)
+Definition pk_expected (c : pk_case) : list (nat * zheight * list nat * list nat * bool) :=
   let data := map qcz (pk_data c) in
-  map (fun q => (pq_d q, pq_h q, find_peaks data (pq_d q) (height_of (pq_h q)), pq_obs q))
-      (filter (fun q => negb (pk_query_check data q)) (pk_queries c ++ pk_grid_queries c)).
+  map (fun q => (pq_d q, pq_h q, find_peaks data (pq_d q) (height_of (pq_h q)), pq_obs q, pk_query_check data q))
+      (filter (fun q => negb (pk_query_check data q && pk_query_corr data q)) (pk_queries c ++ pk_grid_queries c)).
 
 (* find_width: one call and the rows [start, end] it returned *)
 Inductive zwmode := ZWMin (mn : nat) | ZWMinMax (mn mx : nat) | ZWDelta (mn dl : nat) | ZWMinMaxDelta (mn mx dl : nat).
